@@ -32,6 +32,12 @@ def label(v, depth=0):
         return "%s as %s" % (label(v[1], depth + 1), ty_str(v[2]))
     if k in ("tryok", "unwrapped", "into"):
         return label(v[1], depth + 1)
+    if k == "cparam":
+        return "const " + v[1]
+    if k == "sym":
+        return v[1]
+    if k == "after":
+        return "after(%s,%s)" % (ty_str(v[1]), label(v[2], depth + 1))
     if k == "sizeof":
         return "size_of<%s>" % ty_str(v[1])
     if k == "alignof":
@@ -56,6 +62,8 @@ def label(v, depth=0):
         return "(%s %s %s)" % (label(v[2], depth + 1), v[1], label(v[3], depth + 1))
     if k == "un":
         return "%s(%s)" % (v[1], label(v[2], depth + 1))
+    if k == "pad":
+        return "pad_align_to(%s,%s)" % (label(v[1], depth + 1), label(v[2], depth + 1))
     if k == "mutated":
         # hasher fed by a call
         callee, targs = v[4] if len(v) > 4 else (v[1], ())
